@@ -54,7 +54,7 @@ ROWS = {
    text='For generated metadata with look-alike endpoint URLs, indexes and bindings, every (binding, destination) Server.response_args derives must be registered for the issuer, service and binding; a supplied consumer URL or index is honoured only if registered, unknown issuers never get a destination.',
    note='Requests built as objects; metadata rendered by harness templates; no tool involved.'),
  'C11': dict(level='exploration', design='3/C11',
-   technique='exhaustive ast inventory of XML parsing call sites + enumerated sweep of all public parse entry points x generated hostile-document catalogue under a sys.addaudithook monitor',
+   technique='exhaustive ast inventory of XML parsing call sites + enumerated sweep of all public parse entry points x generated hostile-document catalogue under a sys.addaudithook monitor + coverage-guided fuzzing (atheris/libFuzzer, oracle inside the target)',
    text='Every parsing call site in the package must resolve to defusedxml; every discovered entry point (about 2300 schema from_string functions plus SOAP, pack, metadata, binding and signature-checking entry points) is fed entity-declaring, external-reference, re-encoded, truncated and non-XML variants of a document it accepts: entity documents and malformed input must be refused, no file or socket may be touched, no replacement text may surface.',
    note='Audit hook observes CPython-level file/socket access; inventory is syntactic; stand-in tool only needed to build the SP/IdP objects.'),
  'C16': dict(level='exploration', design='3/C16',
